@@ -109,6 +109,7 @@ pub fn gkey_any() -> BoxedStrategy<String> {
     prop_oneof![
         8 => select(KEY_UNIVERSE).prop_map(str::to_string),
         4 => gkey(),
+        2 => crate::chars::gliteral(),
         2 => gtext(0),
         // the keys of the qualifier bursts, in either letter case
         1 => (0usize..36, any::<bool>()).prop_map(|(i, up)| if up { format!("Q{i:02}") } else { format!("q{i:02}") }),
@@ -147,6 +148,7 @@ fn gtype_arg(typed: bool) -> BoxedStrategy<String> {
         prop_oneof![
             5 => gtype(),
             2 => select(KNOWN_TYPES).prop_map(str::to_string),
+            1 => crate::chars::gliteral(),
             2 => select(&["", "!", "a b", "%41", "é", "t_x", "T", "9p", "c++", "a.b-c+D1", "\u{212A}", "ſ", "a/b", "a@1"][..]).prop_map(str::to_string),
             1 => gtext(0),
         ]
@@ -186,6 +188,7 @@ pub fn gprogram(typed: bool) -> BoxedStrategy<Program> {
     let burst = prop_oneof![
         14 => Just(0usize),
         1 => 17usize..=36,
+        1 => crate::spell::gcount(70),
     ];
     (gtype_arg(typed), garg(), burst, proptest::collection::vec(gop(typed), 0..=10))
         .prop_map(|(ty, name, burst, ops)| {
